@@ -98,7 +98,9 @@ fn scn_oneshot(o: &Opts, tr: &mut Tr) {
         }
     }
     // threshold sizes with cheap-to-parse data (compressible or stored)
-    let thr: [usize; 14] = [4095, 4096, 4097, 31743, 31744, 31745, 32767, 32768, 32769, 65535, 65536, 65537, 85196, 85197];
+    // (the ring is followed by a mirror of its first 257 bytes: sizes that end 256..259 bytes into a lap)
+    let thr: [usize; 22] = [4095, 4096, 4097, 31743, 31744, 31745, 32767, 32768, 32769, 65535, 65536, 65537, 85196, 85197,
+                            33024, 33025, 33026, 33027, 65792, 65793, 65794, 65795];
     for (ti, &n) in thr.iter().enumerate() {
         for (kind, lvl) in [("zeros", 1u8), ("period7", 6), ("rand", 0), ("runs", 9), ("zeros", 0), ("period300", 2)] {
             let zl = (ti + lvl as usize) % 2 == 0;
@@ -114,7 +116,7 @@ fn scn_oneshot(o: &Opts, tr: &mut Tr) {
     // cheap exploration: every level x sizes straddling the block / window / buffer thresholds x
     // data families; only a case whose round trip is off is written out for TLC to judge
     let mut nb = 0usize;
-    let thr2: [usize; 13] = [258, 4096, 31744, 32768, 58000, 63488, 65535, 65536, 85196, 91018, 98304, 131072, 190000];
+    let thr2: [usize; 15] = [258, 4096, 31744, 32768, 58000, 63488, 65535, 65536, 85196, 91018, 98304, 131072, 190000, 33026, 65794];
     for (ti, &t) in thr2.iter().enumerate() {
         for delta in [-2i64, -1, 0, 1, 2] {
             for lvl in 0..=10u8 {
